@@ -215,6 +215,8 @@ pub struct World<C: MlsConfig> {
     pub group_known: std::collections::BTreeSet<usize>,
     /// identities of current members that every application refuses for the rest of this round only (offender kind 10)
     pub temp_rejected: Vec<Vec<u8>>,
+    /// init keys of the key packages the last commit added (C02: Welcome recipients)
+    pub last_add_init_keys: Vec<Vec<u8>>,
 }
 
 /// Abstract view of one tree node, numbers from `Stamps`.
@@ -425,6 +427,7 @@ pub fn new_world<C: MlsConfig>(log: SharedCryptoLog, scratch: &str) -> World<C> 
         group_rows: vec![],
         group_known: Default::default(),
         temp_rejected: vec![],
+        last_add_init_keys: vec![],
     }
 }
 
